@@ -197,9 +197,18 @@ func c14Skip(p []V, ops []V) V {
 			d.Release()
 			d = thrift.NewReaderSkipDecoder(c09MkSrc(a[1:], nil))
 			outs = append(outs, Ls(I(3)))
+		case 3:
+			d.Release()
+			d = nil
+			outs = append(outs, Ls(I(3)))
+		case 4:
+			d = thrift.NewReaderSkipDecoder(c09MkSrc(a[1:], nil))
+			outs = append(outs, Ls(I(3)))
 		}
 	}
-	d.Release()
+	if d != nil {
+		d.Release()
+	}
 	return outs
 }
 
@@ -536,7 +545,7 @@ func init() {
 func genC14(g *Gen) {
 	// a library of small bufiox / ReaderSkipDecoder cycles: the C09 generator's cases
 	lg := &Gen{R: g.R, Tier: "quick", classes: map[string]int{}}
-	genC09(lg)
+	genC09With(lg, false)
 	var lib []V
 	for _, c := range lg.cases {
 		if len(Show(c)) < 260 {
